@@ -36,7 +36,7 @@ PROP = {
              "non-trivial = length >= 2"),
     "technique": "C++ compiler as translator (exact finite type-state transition system, regenerated per run) + Lean 4 closure certificate and all-depth induction",
     "level_text": "Theorems over the regenerated exact type table: nothing reachable from a const array / const-qualified view / const_iterator by an access path of ANY length is a modifiable element reference or pointer or accepts assignment, fill, swap or elements()=; the access paths named in the property from non-const roots end in modifiable references; views are not rebindable by assignment; named views are not copy-constructible.",
-    "level_note": "Trusted: Lean kernel (+propext, Quot.sound), g++'s decltype/instantiation as the translator, the probe generator. Bounds: int elements, raw pointers, D <= 4 (quick: D <= 3 and the ops named in the property). Edges named by open findings (const_iterator::base(), origin(), operator& of const views; over-const front/back/reversed/chunked) are cut out and reported as KNOWN-FINDING until fixed.",
+    "level_note": "Trusted: Lean kernel (+propext, Quot.sound), g++'s decltype/instantiation as the translator, the probe generator. Bounds: int elements, raw pointers, D <= 4 (quick: D <= 3 and the ops named in the property). The edges of the one open finding (array_iterator<T, D >= 2, ..., IsConst = true>::base() returns the mutable element pointer) are cut out of the table and reported as KNOWN-FINDING; the other holes (origin(), const_subarray_ptr::base(), operator& of const views) and the over-const front/back/reversed/chunked were repaired in /repo.",
 }
 
 HERE = os.path.dirname(os.path.dirname(os.path.dirname(os.path.abspath(__file__))))
